@@ -104,6 +104,15 @@ def run_doctests(ctx, prog, res, rid, clause, group, floor):
     out = p.stdout
     tests = re.findall(r"^test (.+?) \.\.\. (ok|FAILED|ignored)", out, re.M)
     if not tests:
+        # the witness library itself no longer compiles against this tree: when the error is in a witness of this
+        # group (a const assertion, a bound assertion), that witness no longer holds - a verdict, not a breakdown
+        errs = _errors(p.stderr)
+        ours = [e for e in errs if "src/%s.rs" % group in e]
+        if ours:
+            for e in ours[:10]:
+                r.fail("%s:%s:%s" % (rid, group, re.sub(r"[^A-Za-z0-9_\[\]]+", "_", e.split(" @ ")[0])[:80]),
+                       "compile-time witness no longer holds: %s" % e, "engines/witness/src/%s.rs" % group)
+            return
         raise lib.CheckerBroken("witness doctests did not run:\n" + "\n".join((p.stderr or out).splitlines()[-30:]))
     for name, verdict in tests:
         if group + ".rs" not in name and "::" + group + "::" not in name and group not in name:
